@@ -9,6 +9,14 @@ def fam(name, quick, thorough, seeds=4, args=None):
 
 
 PROPS = {
+    "C16": {
+        "families": [fam("cosopt", 0, 0, seeds=2)],
+        "defects": ["D10"],
+        "coverage_extra": {"exhaustive": True},
+        "rule": "all 2^9 subsets of the nine exception modifiers as real rule texts (modifier order shuffled from VERIF_SEED) plus "
+                "absent and non-exception basic rules, through NewMatchingResult(...).GetCosmeticOption() and Engine.GetCosmeticResult; "
+                "non-trivial = the option differs from 'no answer'; distinct by hash of the op input",
+    },
     "C04": {
         "families": [fam("match", 3000, 60000)],
         "defects": ["D3"],
